@@ -83,6 +83,11 @@ def gen_trunc_cases(c):
         kind = r.choice(['dp', 'sf'])
         n = r.randrange(0, 61)
         out.append((r.random() < 0.4 and p != 0, p, q, r.random() < 0.85, bk, (kind, n), r.random() < 0.3, 'random-' + kind))
+    # auto style on exact values: a non-terminating expansion is cut at 10 places and marked
+    for _ in range(250 if quick else 4000):
+        bk = r.choice(bases)
+        p, q = r.randrange(0, 10 ** r.choice([2, 8, 20])), r.choice([r.randrange(1, 500), F.base_val(bk) ** r.randrange(1, 14) * r.choice([1, 3, 7])])
+        out.append((r.random() < 0.4 and p != 0, p, q, True, bk, 'auto', r.random() < 0.3, 'auto-exact-input'))
     # the other styles with an inexact input flag: the marker must stay
     for _ in range(200 if quick else 3000):
         bk = r.choice(bases)
